@@ -63,8 +63,9 @@ class Func:
 
 
 class Program:
-    def __init__(self, repo):
+    def __init__(self, repo, canonical=True):
         self.repo = repo
+        self.canonical = canonical
         self.root = os.path.join(repo, 'src')
         self.mods = {}       # modname -> (relpath, tree, source)
         self.excluded = []
@@ -86,6 +87,9 @@ class Program:
                     tree = ast.parse(src, filename=p)
                 except SyntaxError as e:
                     raise AnalysisError(f'{p} does not parse: {e}')
+                if canonical:
+                    from .canon import canonicalise
+                    tree = canonicalise(tree)
                 self.mods[name] = (os.path.relpath(p, repo), tree, src)
         self.ispkg = {m for m, (p, _, _) in self.mods.items() if p.endswith('__init__.py')}
         self.defs = {}
